@@ -267,6 +267,9 @@ var solvers = []solverSpec{
 		return []string{"--incremental", fmt.Sprintf("--tlimit=%d", t*1000), f}
 	}, "cvc5"},
 	{"z3", func(f string, t int) []string { return []string{fmt.Sprintf("-T:%d", t), f} }, "z3"},
+	// z3 on the quantifier-based variant: lambda-defined rows make the
+	// array theory incomplete ("unknown" at once) for some goals
+	{"z3-new/gen", func(f string, t int) []string { return []string{fmt.Sprintf("-T:%d", t), f} }, "z3-new"},
 }
 
 func runOne(ctx context.Context, sp solverSpec, file string, timeoutS int) solverResult {
@@ -333,6 +336,14 @@ func solve(file string, timeoutS int, all bool) (solverResult, []solverResult) {
 				}
 			}
 			f := file
+			if strings.HasSuffix(sp.name, "/gen") {
+				g := strings.TrimSuffix(file, ".smt2") + ".gen.smt2"
+				if !fileExists(g) {
+					ch <- solverResult{Status: "cancelled", Backend: sp.name}
+					return
+				}
+				f = g
+			}
 			if sp.bin == "cvc5" {
 				// quantifier-based variant (no lambda terms) when one was written
 				if g := strings.TrimSuffix(file, ".smt2") + ".gen.smt2"; fileExists(g) {
